@@ -40,7 +40,7 @@ static RunResult execute(const Json &plan, std::vector<std::string> *log = nullp
                 rr.fail("INFRA.profile", "unknown profile " + plan.gets("prof"));
                 return rr;
         }
-        g_arena.run_begin();
+        g_arena.run_begin((size_t) ((uint64_t) plan.at("mem").geti("skip")));
         sim_run_begin();
         p->exec(plan, rr, h);
         sim_run_end();
@@ -208,6 +208,8 @@ static int cmd_replay(const std::string &path, bool trace)
         RunResult rr = execute(pl ? *pl : plan);
         Json o = Json::obj();
         o.set("oracle", rr.oracle).set("detail", rr.detail).set("hash", strf("%016llx", (unsigned long long) rr.hash)).set("events", rr.events);
+        if (g_infra_faults)
+                printf("INFRA %s\n", g_infra_msg.substr(0, 300).c_str());
         printf("REPLAY %s\n", o.str().c_str());
         return rr.violated() ? 1 : 0;
 }
@@ -423,6 +425,7 @@ static int cmd_merge(int argc, char **argv)
 }
 
 bool cpu_seam_init(); // cpu.cc
+int cmd_selfcheck(uint64_t n, uint64_t seed);
 
 int main(int argc, char **argv)
 {
@@ -434,7 +437,7 @@ int main(int argc, char **argv)
         std::string cmd = argv[1];
         if (cmd == "merge-sigs")
                 return cmd_merge(argc, argv);
-        g_arena.init(384ull << 20);
+        g_arena.init(224ull << 20);
         mem_install_handlers();
         if (!libinfo_init()) {
                 fprintf(stderr, "INFRA cannot locate libisal image / symbols\n");
@@ -453,6 +456,8 @@ int main(int argc, char **argv)
                 printf("selftest ok: lib %s base %lx rw %lx-%lx syms %zu\n", g_lib.path.c_str(), (unsigned long) g_lib.base, (unsigned long) g_lib.rw_lo, (unsigned long) g_lib.rw_hi, g_lib.syms.size());
                 return 0;
         }
+        if (cmd == "selfcheck")
+                return cmd_selfcheck(argc > 2 ? strtoull(argv[2], 0, 0) : 2000, argc > 3 ? strtoull(argv[3], 0, 0) : 1);
         if (cmd == "run")
                 return cmd_run(argc, argv);
         if (cmd == "replay")
